@@ -333,6 +333,10 @@ func C15(c *core.Ctx) {
 			}
 		}
 		c.Check("R2", "tick-notifies-per-session", query.Pos(), notified, "one session report per SEID key of the query result, addressed with that key")
+		// each session's notification owns its report list (shared with C10 R5): a list re-used for the
+		// next session of the same tick would deliver that session's reports under this SEID
+		freshReportLists(c, "R2")
+		independentIterations(c, "R2", []*ssa.Function{p.SSAFn(p.Method(pkgPerio, "Server", "Serve")), p.SSAFn(p.Method(pkgFwd, "Gtp5g", "queryMultiURR"))})
 	}
 
 	// R3 batching
@@ -394,23 +398,41 @@ func c15Batching(c *core.Ctx) {
 		}
 	}
 	c.Check("R3", "batch-appends-every-pair", inLoop.Pos(), appended && acc != nil, "every (SEID, URR id) pair of the query map is appended to the batch before the flush test")
+	isEmpty := func(v ssa.Value) bool {
+		var rec func(v ssa.Value, d int) bool
+		rec = func(v ssa.Value, d int) bool {
+			switch x := v.(type) {
+			case *ssa.Const:
+				return x.IsNil()
+			case *ssa.Slice:
+				return core.LenInterval(x, nil).Hi == 0
+			case *ssa.MakeSlice:
+				k, ok := core.ConstInt(x.Len)
+				return ok && k == 0
+			case *ssa.Phi:
+				if d > 3 {
+					return false
+				}
+				for _, e := range x.Edges {
+					if !rec(e, d+1) {
+						return false
+					}
+				}
+				return true
+			}
+			return false
+		}
+		return rec(v, 0)
+	}
 	// after the in-loop flush the accumulator restarts empty AND the counter restarts at 0
 	resetAcc, resetCnt := false, false
 	if acc != nil {
 		for i, e := range acc.Edges {
 			pred := acc.Block().Preds[i]
 			if inLoop.Block().Dominates(pred) {
-				if sl, ok := e.(*ssa.Slice); ok {
-					iv := core.LenInterval(sl, nil)
-					resetAcc = iv.Hi == 0
-				}
-				if ph, ok := e.(*ssa.Phi); ok {
-					// merged after the error check: look through
-					for _, e2 := range ph.Edges {
-						if sl, ok := e2.(*ssa.Slice); ok && core.LenInterval(sl, nil).Hi == 0 {
-							resetAcc = true
-						}
-					}
+				// x[:0], nil or make(.., 0), possibly merged after the error check
+				if isEmpty(e) {
+					resetAcc = true
 				}
 			}
 		}
@@ -428,6 +450,80 @@ func c15Batching(c *core.Ctx) {
 				}
 			}
 		}
+	}
+	// the counter counts exactly what the accumulator holds: wherever control merges, the counter
+	// restarts at 0 on precisely the edges on which the accumulator restarts empty
+	if acc != nil {
+		// families
+		accFam, cntFam := map[ssa.Value]bool{}, map[ssa.Value]bool{}
+		var grow func(v ssa.Value, fam map[ssa.Value]bool)
+		grow = func(v ssa.Value, fam map[ssa.Value]bool) {
+			if v == nil || fam[v] {
+				return
+			}
+			switch x := v.(type) {
+			case *ssa.Phi:
+				fam[v] = true
+				for _, e := range x.Edges {
+					grow(e, fam)
+				}
+			case *ssa.Call:
+				if bi, ok := x.Call.Value.(*ssa.Builtin); ok && bi.Name() == "append" {
+					fam[v] = true
+					grow(x.Call.Args[0], fam)
+				}
+			case *ssa.BinOp:
+				if x.Op == token.ADD {
+					fam[v] = true
+					grow(x.X, fam)
+				}
+			}
+		}
+		grow(acc, accFam)
+		for _, in := range acc.Block().Instrs {
+			if ph, ok := in.(*ssa.Phi); ok && ph != acc && isIntType(ph.Type()) {
+				grow(ph, cntFam)
+			}
+		}
+		phiIn := func(b *ssa.BasicBlock, fam map[ssa.Value]bool) *ssa.Phi {
+			for _, in := range b.Instrs {
+				if ph, ok := in.(*ssa.Phi); ok && fam[ph] {
+					return ph
+				}
+			}
+			return nil
+		}
+		nM := 0
+		for _, b := range fn.Blocks {
+			cp, ap := phiIn(b, cntFam), phiIn(b, accFam)
+			if cp == nil && ap == nil {
+				continue
+			}
+			nM++
+			agree, why := true, ""
+			for i := range b.Preds {
+				zero, empty := false, false
+				if cp != nil {
+					k, ok := core.ConstInt(cp.Edges[i])
+					zero = ok && k == 0
+				}
+				if ap != nil {
+					empty = isEmpty(ap.Edges[i])
+				}
+				if zero != empty {
+					agree = false
+					why = fmt.Sprintf("on the edge from block %d the counter restarts=%v but the accumulator restarts=%v", b.Preds[i].Index, zero, empty)
+				}
+			}
+			pos := token.NoPos
+			if cp != nil {
+				pos = cp.Pos()
+			} else {
+				pos = ap.Pos()
+			}
+			c.Check("R3", fmt.Sprintf("counter-tracks-accumulator#%d", nM), pos, agree, "the batch counter and the batch restart together at every control-flow merge "+why)
+		}
+		c.Floor("R3", nM, 2, "merge points of the batch counter / accumulator")
 	}
 	c.Check("R3", "flush-resets-accumulator", inLoop.Pos(), resetAcc, "after a full batch was sent the accumulator restarts empty (otherwise every later request repeats the earlier URRs)")
 	c.Check("R3", "flush-resets-counter", inLoop.Pos(), resetCnt, "after a full batch was sent the batch counter restarts at 0")
